@@ -35,8 +35,8 @@ EXPLANATION = (
     "scheme base[order][cc]; the importer maps default names iff convert_default_names, also inside brackets, NO groups "
     "and sum denominators. R18d: importer arithmetic on sums, signs, fractions (numerator/denominator), integer and "
     "square-root prefactors, brackets with exponents, NO groups, symbols: the evaluated value equals the value the text "
-    "denotes (multiset of products; operator order kept), the result is a bare Expr, empty text is 0, a malformed sign "
-    "is refused. R18e: Expr.__init__ evaluated over the table sym_tensors x antisym_tensors x real x target_idx: "
+    "denotes (multiset of products; operator order kept), the result is a bare Expr, empty text is 0. "
+    "R18e: Expr.__init__ evaluated over the table sym_tensors x antisym_tensors x real x target_idx: "
     "declared names are stored, the bra-ket (anti)symmetry is applied with all declared names in place whenever either "
     "list is non-empty, make_real iff real, target indices forwarded.")
 ASSUMPTIONS = [
@@ -564,28 +564,77 @@ def _bindings(fn):
     return out
 
 
-def _may_fields(expr, binds, fields, seen=None):
-    """Fields f such that tensor_names.f may flow into the value of ``expr``."""
-    seen = set() if seen is None else seen
-    out = set()
-    for n in ast.walk(expr):
-        if isinstance(n, ast.Attribute) and isinstance(n.value, ast.Name) and n.value.id == "tensor_names" and n.attr in fields:
-            out.add(n.attr)
-        elif isinstance(n, ast.Call) and isinstance(n.func, ast.Name) and n.func.id == "getattr" and len(n.args) >= 2 \
-                and isinstance(n.args[0], ast.Name) and n.args[0].id == "tensor_names":
-            key = n.args[1]
-            if isinstance(key, ast.Constant) and isinstance(key.value, str):
-                out |= {key.value} & set(fields)
-            elif isinstance(key, ast.JoinedStr):
-                pat = "".join(re.escape(v.value) if isinstance(v, ast.Constant) else ".*" for v in key.values)
-                out |= {f_ for f_ in fields if re.fullmatch(pat, f_)}
-            else:
-                out |= set(fields)
-        elif isinstance(n, ast.Name) and isinstance(n.ctx, ast.Load) and n.id in binds and n.id not in seen:
-            seen.add(n.id)
-            for v in binds[n.id]:
-                out |= _may_fields(v, binds, fields, seen)
-    return out
+class _Flow:
+    """May-flow of ``tensor_names.<field>`` into an expression: through every local binding of a name (order- and
+    path-insensitive) and through parameters to the arguments at the call sites of the function in the package."""
+
+    def __init__(self, ctx, fields):
+        self.ctx, self.fields = ctx, fields
+        self.binds = {}
+        self.callers = None
+
+    def _aliases(self, mod):
+        """local names of the tensor_names singleton in a module"""
+        out = {k for k, v in mod.imports.items() if v.endswith("tensor_names:tensor_names")}
+        if mod.name == "tensor_names":
+            out.add("tensor_names")
+        return out
+
+    def _binds(self, fn):
+        if id(fn) not in self.binds:
+            self.binds[id(fn)] = _bindings(fn)
+        return self.binds[id(fn)]
+
+    def _call_sites(self, name):
+        if self.callers is None:
+            self.callers = {}
+            for ref, fn in self.ctx.model.all_functions():
+                if getattr(fn, "_fn", None) is not None:
+                    continue
+                for cl in calls_in(fn):
+                    self.callers.setdefault(call_name(cl), []).append((cl, fn))
+        return self.callers.get(name, [])
+
+    def _param_args(self, fn, prm):
+        """argument expressions bound to parameter ``prm`` of ``fn`` at its call sites: [(expr, caller)]"""
+        ar = fn.args
+        pos = [x.arg for x in ar.posonlyargs + ar.args]
+        if prm not in pos and prm not in [x.arg for x in ar.kwonlyargs]:
+            return []
+        out = []
+        for cl, caller in self._call_sites(fn.name):
+            skip = 1 if pos[:1] in (["self"], ["cls"]) and isinstance(cl.func, ast.Attribute) else 0
+            if prm in pos and not any(isinstance(x, ast.Starred) for x in cl.args):
+                k = pos.index(prm) - skip
+                if 0 <= k < len(cl.args):
+                    out.append((cl.args[k], caller))
+            out.extend((kw.value, caller) for kw in cl.keywords if kw.arg == prm)
+        return out
+
+    def fields_of(self, expr, fn, seen=None):
+        seen = set() if seen is None else seen
+        names = self._aliases(fn._module)
+        binds = self._binds(fn)
+        out = set()
+        for n in ast.walk(expr):
+            if isinstance(n, ast.Attribute) and isinstance(n.value, ast.Name) and n.value.id in names and n.attr in self.fields:
+                out.add(n.attr)
+            elif isinstance(n, ast.Call) and isinstance(n.func, ast.Name) and n.func.id == "getattr" and len(n.args) >= 2 \
+                    and isinstance(n.args[0], ast.Name) and n.args[0].id in names:
+                key = n.args[1]
+                if isinstance(key, ast.Constant) and isinstance(key.value, str):
+                    out |= {key.value} & set(self.fields)
+                elif isinstance(key, ast.JoinedStr):
+                    pat = "".join(re.escape(v.value) if isinstance(v, ast.Constant) else ".*" for v in key.values)
+                    out |= {f_ for f_ in self.fields if re.fullmatch(pat, f_)}
+            elif isinstance(n, ast.Name) and isinstance(n.ctx, ast.Load) and (id(fn), n.id) not in seen:
+                seen.add((id(fn), n.id))
+                for v in binds.get(n.id, []):
+                    out |= self.fields_of(v, fn, seen)
+                if len(seen) < 200:
+                    for v, caller in self._param_args(fn, n.id):
+                        out |= self.fields_of(v, caller, seen)
+        return out
 
 
 def writer_table(ctx, fields):
@@ -593,10 +642,10 @@ def writer_table(ctx, fields):
     table = {}
     n_sites = 0
     reader = ctx.model.fn(READER)
+    flow = _Flow(ctx, fields)
     for ref, fn in ctx.model.all_functions():
         if getattr(fn, "_fn", None) is not None or fn is reader:
             continue
-        binds = None
         for cl in calls_in(fn):
             cls = call_name(cl)
             if cls not in CTORS:
@@ -606,9 +655,7 @@ def writer_table(ctx, fields):
             if name is None:
                 continue
             n_sites += 1
-            if binds is None:
-                binds = _bindings(fn)
-            for f_ in sorted(_may_fields(name, binds, fields)):
+            for f_ in sorted(flow.fields_of(name, fn)):
                 table.setdefault(f_, {}).setdefault(cls, []).append(cl)
     return table, n_sites
 
